@@ -615,6 +615,16 @@ theorem shipped_clause2_only_all_list (n : PNode) (h : ShippedShaped n) (hempty 
   simp only [List.all_eq_true, Function.comp]
   exact fun p hp => hall p hp
 
+open Tranp.Generated in
+/-- non-vacuity: an empty module (`Entrypoint` with `statements = []`) is shipped-shaped and its properties yield nothing;
+    its row is all-list, while the row of `If` is not (so an `If` node can never be in the situation of clause 2) -/
+example :
+    let e : PNode := .mk 0 "entrypoint".toList false [.many "statements".toList true []] []
+    ShippedShaped e ∧ (propExpand e.props).isEmpty = true ∧
+    (GetterShapes.shapes.getD ((NodeClasses.table.classes.map (·.name)).idxOf "If".toList) []).all (fun x => x.2.2) = false := by
+  refine ⟨⟨(NodeClasses.table.classes.map (·.name)).idxOf "Entrypoint".toList, by decide +kernel, by decide +kernel, by simp [PNode.terminal]⟩,
+    by decide, by decide +kernel⟩
+
 /-- For trees of shipped node classes whose property values have the shape of the getter bodies, ALL of `WF` but clause 2
     holds by the generated tables: what remains is "nothing under a node whose properties yield nothing" (`under_clause_iff`). -/
 theorem shipped_wf_reduces_to_under (root : PNode) (hs : ∀ m ∈ visited root, ShippedShaped m)
